@@ -1104,6 +1104,17 @@ def pad_reuse(array, pad_width, mode, **kwargs):
                 "unsupported value for reflect_type, must be one of (`even`, `odd`)"
             )
 
+    limits = [s - 1 if mode == "reflect" else s for s in array.shape]
+    if any(max(pw) > limit for pw, limit in zip(pad_width, limits)):
+        # More padding than one reflection / one period of the axis provides:
+        # the slices taken below would come up short.  Let NumPy work out the
+        # source position of every output element along each axis instead.
+        for axis, (s, pw) in enumerate(zip(array.shape, pad_width)):
+            if max(pw) > 0:
+                index = np.pad(np.arange(s), pw, mode=mode)
+                array = array[(slice(None),) * axis + (index,)]
+        return array
+
     result = np.empty(array.ndim * (3,), dtype=object)
     for idx in np.ndindex(result.shape):
         select = []
